@@ -151,6 +151,45 @@ def natural_instances(chk, n, rng):
                           {"dx": float(h), "nu": nu, "cfl": cfl, "D": D, "regime": regime})
 
 
+def constructor_plumbing(chk, rng, quick):
+    """the simulators' own constructor arguments (cfl, viscosity, x_range / grid) reach the time-step selection: direct evaluation of
+    the bounds on freshly built simulators that nobody touched after construction (except for the velocity)."""
+    import sopht.simulator as sps
+
+    plans = [("passive", 2, (6, 8), np.float32, 0.37, 0.013, 2.0), ("ns", 2, (6, 8), np.float64, 0.05, 2.5, 0.5)]
+    if not quick:
+        plans += [("ns", 3, (5, 6, 8), np.float32, 0.8, 0.4, 4.0), ("passive", 3, (5, 6, 8), np.float64, 0.2, 1e-4, 1.0)]
+    for kind, D, shape, real_t, cfl, nu, xr in plans:
+        if kind == "passive":
+            sim = sps.PassiveTransportFlowSimulator(kinematic_viscosity=nu, grid_dim=D, grid_size=shape, x_range=xr, cfl=cfl, real_t=real_t)
+        elif D == 2:
+            sim = sps.UnboundedNavierStokesFlowSimulator2D(grid_size=shape, x_range=xr, kinematic_viscosity=nu, cfl=cfl, real_t=real_t, flow_density=2.0)
+        else:
+            sim = sps.UnboundedNavierStokesFlowSimulator3D(grid_size=shape, x_range=xr, kinematic_viscosity=nu, cfl=cfl, real_t=real_t, flow_density=0.5)
+        h = xr / shape[-1]
+        eps = float(np.finfo(real_t).eps)
+        for scale in (0.0, 1e-3, 1.0, 50.0):
+            sim.velocity_field[...] = (rng.normal(size=sim.velocity_field.shape) * scale).astype(real_t)
+            m = float(np.abs(sim.velocity_field.astype(np.float64)).sum(axis=0).max())
+            for pf in (1.0, 0.25):
+                dt = float(sim.compute_stable_timestep(dt_prefac=pf))
+                chk.traces += 1
+                chk.count(("plumbing", kind, D, real_t.__name__, scale, pf))
+                errs = []
+                if not np.isfinite(dt) or dt <= 0:
+                    errs.append(f"dt = {dt}")
+                else:
+                    adv = pf * cfl * h / m if m > 0 else np.inf
+                    dif = pf * 0.9 * h * h / (2 * D * nu)
+                    want = min(adv, dif)
+                    if dt > want * (1 + 64 * eps):
+                        errs.append(f"dt = {dt!r} exceeds min(cfl h / max|u|, 0.9 h^2 / (2 D nu)) x prefactor = {want!r} for the constructor's cfl={cfl}, nu={nu}, h={h}")
+                    elif dt < want * (1 - 1e-3):
+                        errs.append(f"dt = {dt!r} is more than 0.1% below the documented selection {want!r} (cfl={cfl}, nu={nu}, h={h})")
+                for er in errs:
+                    chk.violation({"kind": "stable_dt_plumbing", "via": kind, "dim": D}, f"{type(sim).__name__} ({real_t.__name__}) velocity scale {scale}, prefactor {pf}: {er}")
+
+
 def max_principle(chk, quick):
     plans = [((3, 3), 1, 4, "-2..2"), ((3, 3), 1, 8, "-2..2"), ((3, 3, 3), 1, 8, "-1..1" if quick else "-2..2"),
              ((3, 3, 3), 1, 6, "-1..1" if quick else "-2..2")]
@@ -221,6 +260,7 @@ def run(chk: core.Check):
                                   {"case": e, "error": err})
         if len(chk.samples) < 3 and e["dominant"] and i % 5 == 0:
             chk.sample(e)
+    constructor_plumbing(chk, rng, quick)
     natural_instances(chk, 400 if quick else 6000, rng)
     max_principle(chk, quick)
     chk.assumptions += [
